@@ -46,7 +46,9 @@ def runBin (step : σ → ASig α → ASig α → Except PyErr (σ × ASig α)) 
       let (st'', os) ← runBin step st' rest
       pure (st'', o :: os)
 
-/-- The batches of the constant node: `[[0, c], [inf, c]]` at every update. -/
-def constStream (c : α) (k : Nat) : List (ASig α) := List.replicate k [(Tm.zero, c), (Tm.inf, c)]
+/-- The batches of a constant node: `[[0, c], [inf, c]]` at the first update, nothing afterwards. -/
+def constStream (c : α) : Nat → List (ASig α)
+  | 0 => []
+  | k + 1 => [(Tm.zero, c), (Tm.inf, c)] :: List.replicate k []
 
 end Rtamt.Dense.AlgOn
